@@ -89,6 +89,17 @@ class Ctx:
             raise AnalysisError(msg)
         return cond
 
+    def attempt(self, fn, *args):
+        """Run a further part of a check.  If it cannot be analysed although an earlier part already reported a violation,
+        the violation stands (a counterexample needs no further support); otherwise the run fails closed as usual."""
+        from .absint import Unsupported
+        try:
+            return fn(self, *args)
+        except (AnalysisError, Unsupported) as e:
+            if all(o.ok for o in self.obs):
+                raise AnalysisError(str(e)) if not isinstance(e, AnalysisError) else e
+            self.note("%s not analysable on this tree (%s); the violation already found stands" % (getattr(fn, "__name__", "part"), e))
+
     def floor(self, rule, count, minimum, what):
         """Fail closed when a rule matched fewer instances than confirmed by
         hand: a rule matching nothing passes vacuously forever."""
